@@ -58,7 +58,8 @@ class InstantiatedClass(parser.Class):
         # Instantiate all instance methods
         self.methods = self.instantiate_methods(typenames)
         
-        self.dunder_methods = original.dunder_methods
+        # Instantiate the arguments of the dunder methods
+        self.dunder_methods = self.instantiate_dunder_methods(typenames)
 
         super().__init__(
             self.template,
@@ -157,6 +158,30 @@ class InstantiatedClass(parser.Class):
             self.original.methods, typenames, self)
 
         return instantiated_methods
+
+    def instantiate_dunder_methods(self, typenames):
+        """
+        Instantiate the class-level template in the dunder methods.
+
+        Args:
+            typenames: List of template types to instantiate.
+
+        Return: List of dunder methods instantiated with provided template args on the class.
+        """
+        instantiated_dunder_methods = []
+        for dunder_method in self.original.dunder_methods:
+            instantiated_args = instantiate_args_list(
+                dunder_method.args.list(),
+                typenames,
+                self.instantiations,
+                self.cpp_typename(),
+            )
+            instantiated_dunder_methods.append(
+                parser.classes.DunderMethod(
+                    name=dunder_method.name,
+                    args=parser.ArgumentList(instantiated_args),
+                ))
+        return instantiated_dunder_methods
 
     def instantiate_operators(self, typenames):
         """
